@@ -1,12 +1,15 @@
 (* C19 — copy and move preserve content identity without touching content.
-   Model: Repo/Ext.v (copy_plan / copy_apply / move_plan / move_apply over Repo/Model.v); proofs: Repo/ExtProofs.v.
+   Model: Repo/Ext.v (copy_plan / copy_apply / move_plan / move_apply over Repo/Model.v; the commands as the histories
+   run them are copy_cmd3 fl / move_cmd45 fl with the repair switches [flags], read from the source on every check run);
+   proofs: Repo/ExtProofs.v, Repo/ExtShare.v (the repair of P3), Repo/ExtReach.v (reachable repositories, the class statement).
+   Sections 1-5: the plain commands (= the code without the repair of P3); section 6 and the class section: the repair.
    The theorems speak about EVERY repository state that satisfies the well-formedness predicates
      wf_fs   (the inode table only holds numbers below next_ino),
      wf_recs (entity keys are distinct and below next_ent, no two records have the same path),
    every command line (options, source, destination) and every outcome.
    [holds f a c] = the cache object at address a is a regular file with bytes c ("the committed bytes"). *)
 From Coq Require Import List Bool NArith.
-From XV Require Import Base.Amap Base.Bytes Repo.Model Repo.Ext Repo.ExtProofs Repo.ExtReach.
+From XV Require Import Base.Amap Base.Bytes Repo.Model Repo.Ext Repo.ExtProofs Repo.ExtShare Repo.ExtReach.
 Import ListNotations.
 Local Open Scope N_scope.
 
@@ -79,11 +82,12 @@ Qed.
    repository unchanged; in every other case the command IS [move_cmd], which the theorems above and below
    describe *)
 Theorem move_uncommitted_refused fl o src dst r l :
-  fixed_P45 fl = true -> move_plan src dst r = MPlanned l -> move_uncommitted o r l = true ->
+  fixed_P3 fl = false -> fixed_P45 fl = true -> move_plan src dst r = MPlanned l -> move_uncommitted o r l = true ->
   move_cmd45 fl o src dst r = (r, Err).
 Proof. exact (move_uncommitted_refused_lemma fl o src dst r l). Qed.
 
 Theorem move_is_move_otherwise fl o src dst r :
+  fixed_P3 fl = false ->
   (fixed_P45 fl = false \/ forall l, move_plan src dst r = MPlanned l -> move_uncommitted o r l = false) ->
   move_cmd45 fl o src dst r = move_cmd fl o src dst r.
 Proof. exact (move_cmd45_is_move_lemma fl o src dst r). Qed.
@@ -190,47 +194,138 @@ Example absent_example :
   oc = Ok /\ ws_read (xfs r') s_n_txt = Some s_hello /\ ws_read (xfs r') s_a_txt = None.
 Proof. vm_compute. repeat split; reflexivity. Qed.
 
-(* ---- the known classes --------------------------------------------------------------------------------------------------- *)
-(* the full statement: WITHOUT the same-extension hypothesis of copy_result the destination of every copy in every
-   history would be materialised with the committed bytes *)
-Definition C19_full : Prop :=
-  forall fl (h : list xitem) o src dst plan sk,
-    let r := run_xitems fl r0 h in
-    copy_plan o src dst r = CPlanned plan sk -> NoDup (map cd_path plan) -> c_no_recheck o = false ->
-    forall c dg b, In c plan -> r_digest (cs_rec c) = Some dg -> holds (xfs r) (cache_addr (r_path (cs_rec c)) dg) b ->
-      ws_read (xfs (fst (copy_cmd o src dst r))) (cd_path c) = Some b.
-Definition K_cross_ext (c : cpair) : bool := negb (beqb (extension (cd_path c)) (extension (r_path (cs_rec c)))).
+(* ---- 6. the repair of P3 (switch fixed_P3): destinations with another extension -------------------------------------------
+   The cache address of a version is (digest, extension of the CURRENT path): a destination with another extension
+   has an address of its own.  "Content identity" across extensions: the destination is recorded with the source's
+   digest, and its own address holds a read-only regular file whose bytes have the normal form of the source's
+   committed bytes (equal digests; EXACTLY the source's bytes when the command made the object, copy_single_same_bytes).
+   With the repair copy / move put the content there before any record changes ([share_object]); no object is
+   removed or altered ([oget] keeps every entry, [holds] every content), the only new objects are at the
+   destinations' addresses, and a command that cannot materialise a destination stops with the repository
+   unchanged (copy_unavailable / move_unavailable). *)
+Theorem copy_across_extensions_fixed fl o src dst r r' oc plan sk :
+  fixed_P3 fl = true -> xreach fl r ->
+  copy_plan o src dst r = CPlanned plan sk -> NoDup (map cd_path plan) -> copy_unavailable o r plan = false ->
+  copy_cmd3 fl o src dst r = (r', oc) ->
+  (forall a e, oget (xfs r) a = Some e -> oget (xfs r') a = Some e) /\
+  (forall a b, holds (xfs r) a b -> holds (xfs r') a b) /\
+  (forall a, oget (xfs r') a <> None -> oget (xfs r) a <> None \/
+     exists c dg, In c plan /\ r_digest (cs_rec c) = Some dg /\ a = cache_addr (cd_path c) dg) /\
+  forall c, In c plan -> copy_result3 o r r' oc c.
+Proof. exact (copy_fixed_reachable fl o src dst r r' oc plan sk). Qed.
+Print copy_result3.
 
-(* P3: a destination with another extension is recorded with the source's digest, but its address is
-   recomputed with the new extension: no such object, the command panics, nothing can restore it *)
-Definition h_cross : list xitem := [XBase (UWrite s_a_txt s_hello); XBase (XTrack t_plain [s_a_txt])].
-Theorem cross_ext_refuted : ~ C19_full.
+Theorem copy_single_same_bytes fl o src dst r r' oc c sk dg b :
+  fixed_P3 fl = true -> xreach fl r ->
+  copy_plan o src dst r = CPlanned [c] sk -> copy_unavailable o r [c] = false ->
+  copy_cmd3 fl o src dst r = (r', oc) ->
+  r_digest (cs_rec c) = Some dg -> holds (xfs r) (cache_addr (r_path (cs_rec c)) dg) b ->
+  obj_exists (xfs r) (cache_addr (cd_path c) dg) = false ->
+  holds (xfs r') (cache_addr (cd_path c) dg) b /\ oget (xfs r) (cache_addr (cd_path c) dg) = None.
+Proof. exact (copy_single_reachable fl o src dst r r' oc c sk dg b). Qed.
+
+Theorem move_across_extensions_fixed fl o src dst r r' oc l :
+  fixed_P3 fl = true -> xreach fl r ->
+  move_plan src dst r = MPlanned l -> move_unavailable o r l = false ->
+  move_cmd45 fl o src dst r = (r', oc) ->
+  length (recs (base r')) = length (recs (base r)) /\
+  (forall a e, oget (xfs r) a = Some e -> oget (xfs r') a = Some e) /\
+  (forall a b, holds (xfs r) a b -> holds (xfs r') a b) /\
+  (forall a, oget (xfs r') a <> None -> oget (xfs r) a <> None \/
+     exists e x d dg, In (e, x, d) l /\ In dg (r_hist x) /\ a = cache_addr d dg) /\
+  (forall e x d, In (e, x, d) l -> move_result r r' e x d /\
+     forall dg b, In dg (r_hist x) -> holds (xfs r) (cache_addr (r_path x) dg) b ->
+       exists b', holds (xfs r') (cache_addr d dg) b' /\ strip_crlf b' = strip_crlf b) /\
+  (oc = Ok -> forall e x d, In (e, x, d) l -> ws_exists (xfs r') (r_path x) = false).
+Proof. exact (move_fixed_reachable fl o src dst r r' oc l). Qed.
+
+(* a failure leaves nothing behind: the content of some pair is at neither address (and the destination is to be
+   rechecked, or the source removed) => the command stops before any record changes *)
+Theorem unavailable_refused fl :
+  fixed_P3 fl = true ->
+  (forall o src dst r plan sk, copy_plan o src dst r = CPlanned plan sk -> copy_unavailable o r plan = true ->
+     copy_cmd3 fl o src dst r = (r, Err)) /\
+  (forall o src dst r l, move_plan src dst r = MPlanned l -> move_unavailable o r l = true ->
+     move_cmd45 fl o src dst r = (r, Err)).
 Proof.
-  intros F.
-  specialize (F as_is h_cross c_plain s_a_txt s_b_dat [plan_pair (run_xitems as_is r0 h_cross) (mk_frec s_a_txt (Some (6%N, 2%N)) (Some (digest_of B3 Auto s_hello)) [digest_of B3 Auto s_hello] Copy Auto) s_b_dat] false).
-  cbv zeta in F.
-  assert (P : copy_plan c_plain s_a_txt s_b_dat (run_xitems as_is r0 h_cross) =
-              CPlanned [plan_pair (run_xitems as_is r0 h_cross) (mk_frec s_a_txt (Some (6%N, 2%N)) (Some (digest_of B3 Auto s_hello)) [digest_of B3 Auto s_hello] Copy Auto) s_b_dat] false)
-    by (vm_compute; reflexivity).
-  specialize (F P).
-  assert (ND : NoDup (map cd_path [plan_pair (run_xitems as_is r0 h_cross) (mk_frec s_a_txt (Some (6%N, 2%N)) (Some (digest_of B3 Auto s_hello)) [digest_of B3 Auto s_hello] Copy Auto) s_b_dat]))
-    by (constructor; [intros []|constructor]).
-  specialize (F ND eq_refl _ (digest_of B3 Auto s_hello) s_hello (or_introl eq_refl) eq_refl).
-  assert (H : holds (xfs (run_xitems as_is r0 h_cross)) (cache_addr s_a_txt (digest_of B3 Auto s_hello)) s_hello).
-  { exists 1%N. eexists. vm_compute. repeat split; reflexivity. }
-  specialize (F H). vm_compute in F. discriminate.
+  exact (fun P3 => conj (fun o src dst r plan sk => copy_cmd3_refused fl o src dst r plan sk P3)
+                        (fun o src dst r l => move_cmd45_refused3 fl o src dst r l P3)).
 Qed.
-Example cross_ext_witness :      (* ... and what happens instead *)
+
+(* without the repair the command of the histories IS copy_cmd (sections 1 to 5 speak about it) *)
+Theorem copy_is_copy_otherwise fl o src dst r : fixed_P3 fl = false -> copy_cmd3 fl o src dst r = copy_cmd o src dst r.
+Proof. exact (copy_cmd3_as_is fl o src dst r). Qed.
+
+(* ---- the known class, following the switch -------------------------------------------------------------------------------- *)
+(* the statement with a class parameter (Repo/ExtReach.v): *)
+Print C19_copy_at.
+Print C19_move_at.
+Print K_cross_ext_fl.
+(* the full statement: no class at all, whatever the switches *)
+Definition C19_full : Prop := forall fl, C19_copy_at fl (fun _ _ => false) /\ C19_move_at fl (fun _ _ => false).
+
+(* outside the class of P3 -- which is the destinations with another extension when the repair is absent and EMPTY
+   when it is present -- the statement holds for both values of the switch *)
+Theorem C19_outside_class fl : C19_copy_at fl (K_cross_ext_fl fl) /\ C19_move_at fl (K_cross_ext_fl fl).
+Proof. exact (conj (copy_outside_class fl) (move_outside_class fl)). Qed.
+
+Theorem K_cross_ext_empty_when_fixed fl s d : fixed_P3 fl = true -> K_cross_ext_fl fl s d = false.
+Proof. exact (K_cross_ext_empty_when_fixed_lemma fl s d). Qed.
+
+Theorem C19_full_fixed fl : fixed_P3 fl = true -> C19_copy_at fl (fun _ _ => false) /\ C19_move_at fl (fun _ _ => false).
+Proof. exact (full_when_fixed fl). Qed.
+
+(* P3, the code as it is (switch off): a destination with another extension is recorded with the source's digest, but
+   its address is recomputed with the new extension: no such object, nothing can restore it.
+   copy --no-recheck a.txt b.dat succeeds and records b.dat; move a.txt b.dat renames the file and moves the record *)
+Print h_cross.
+Theorem cross_ext_copy_refuted : ~ C19_copy_at as_is (fun _ _ => false).
+Proof. exact cross_ext_copy_refuted_lemma. Qed.
+Theorem cross_ext_move_refuted : ~ C19_move_at as_is (fun _ _ => false).
+Proof. exact cross_ext_move_refuted_lemma. Qed.
+
+Theorem cross_ext_refuted : ~ C19_full.
+Proof. exact (fun F => cross_ext_copy_refuted (proj1 (F as_is))). Qed.
+
+Example cross_ext_witness :      (* ... and what the plain copy does instead: the handler thread panics, the record stays *)
   let r := run_xitems as_is r0 h_cross in
-  let '(r', oc) := copy_cmd c_plain s_a_txt s_b_dat r in
+  let '(r', oc) := copy_cmd3 as_is c_plain s_a_txt s_b_dat r in
   oc = Panic /\
   exists e x d, find_path (recs (base r')) s_b_dat = Some (e, x) /\ r_digest x = Some d /\
                 obj_exists (xfs r') (cache_addr s_b_dat d) = false /\ ws_read (xfs r') s_b_dat = None.
 Proof. vm_compute. split; [reflexivity|]. do 3 eexists. repeat split; reflexivity. Qed.
-(* outside the class: copy_shares_object (copy_result carries the hypothesis
-   extension (cd_path c) = extension (r_path (cs_rec c)), i.e. K_cross_ext c = false) *)
-Lemma K_cross_ext_false c : K_cross_ext c = false -> extension (cd_path c) = extension (r_path (cs_rec c)).
-Proof. unfold K_cross_ext. destruct (beqb_spec (extension (cd_path c)) (extension (r_path (cs_rec c)))); [auto|discriminate]. Qed.
+(* the same commands with the repair: two objects with the same bytes in one digest directory, the destination is
+   materialised (copy) / the moved path is restorable (move) *)
+Example cross_ext_fixed_copy :
+  let r := run_xitems all_fixed r0 h_cross in
+  let '(r', oc) := copy_cmd3 all_fixed c_plain s_a_txt s_b_dat r in
+  oc = Ok /\ length (objs (xfs r')) = 2%nat /\ ws_read (xfs r') s_b_dat = Some s_hello /\
+  obj_read (xfs r') (cache_addr s_b_dat (digest_of B3 Auto s_hello)) = Some s_hello /\
+  obj_read (xfs r') (cache_addr s_a_txt (digest_of B3 Auto s_hello)) = Some s_hello.
+Proof. vm_compute. repeat split; reflexivity. Qed.
+Example cross_ext_fixed_move :
+  let r := run_xitems all_fixed r0 h_cross in
+  let '(r', oc) := move_cmd45 all_fixed m_plain s_a_txt s_b_dat r in
+  oc = Ok /\ length (recs (base r')) = 1%nat /\ ws_read (xfs r') s_b_dat = Some s_hello /\ wget (xfs r') s_a_txt = None /\
+  obj_read (xfs r') (cache_addr s_b_dat (digest_of B3 Auto s_hello)) = Some s_hello /\
+  ws_read (xfs (fst (do_xitem all_fixed (fst (do_xitem all_fixed r' (XBase (UDelete s_b_dat)))) (XBase (XRecheck {| k_method := None; k_force := false |} [s_b_dat]))))) s_b_dat = Some s_hello.
+Proof. vm_compute. repeat split; reflexivity. Qed.
+(* a source tracked with --no-commit has no object: the repaired copy stops with the repository unchanged (the code as
+   it is saves the record of n.txt and panics) *)
+Definition h_nocommit : list xitem :=
+  [XBase (UWrite s_a_txt s_hello); XBase (XTrack {| t_method := None; t_tob := None; t_no_commit := true; t_force := false |} [s_a_txt])].
+Example unavailable_example :
+  let r := run_xitems all_fixed r0 h_nocommit in
+  copy_cmd3 all_fixed c_plain s_a_txt s_n_txt r = (r, Err) /\
+  snd (copy_cmd3 as_is c_plain s_a_txt s_n_txt r) = Panic /\
+  (exists ex, find_path (recs (base (fst (copy_cmd3 as_is c_plain s_a_txt s_n_txt r)))) s_n_txt = Some ex).
+Proof. vm_compute. repeat split; try reflexivity. eexists; reflexivity. Qed.
+Example full_fixed_nonvacuous :    (* the hypotheses of C19_copy_at / C19_move_at are met by the commands above *)
+  let r := run_xitems all_fixed r0 h_cross in
+  xreach all_fixed r /\ copy_unavailable c_plain r [plan_pair r x_a_txt s_b_dat] = false /\
+  copy_plan c_plain s_a_txt s_b_dat r = CPlanned [plan_pair r x_a_txt s_b_dat] false /\
+  move_plan s_a_txt s_b_dat r = MPlanned [(2%N, x_a_txt, s_b_dat)] /\ move_unavailable m_plain r [(2%N, x_a_txt, s_b_dat)] = false.
+Proof. split; [exact (h_cross_reach all_fixed eq_refl)|vm_compute; repeat split; reflexivity]. Qed.
 
 (* move of a copy-method file whose source is absent: the code as it is errors out after the record was moved
    (fixed_mv_absent = false), the repaired code rechecks the destination *)
@@ -257,6 +352,16 @@ Print Assumptions move_preserves_count_reachable.
 Print Assumptions absent_source_ok_reachable.
 Print Assumptions reachable_by_clean_runs.
 Print Assumptions cross_ext_refuted.
+Print Assumptions cross_ext_copy_refuted.
+Print Assumptions cross_ext_move_refuted.
+Print Assumptions copy_across_extensions_fixed.
+Print Assumptions copy_single_same_bytes.
+Print Assumptions move_across_extensions_fixed.
+Print Assumptions unavailable_refused.
+Print Assumptions copy_is_copy_otherwise.
+Print Assumptions C19_outside_class.
+Print Assumptions K_cross_ext_empty_when_fixed.
+Print Assumptions C19_full_fixed.
 Print Assumptions move_absent_refuted.
 Print Assumptions move_uncommitted_refused.
 Print Assumptions move_is_move_otherwise.
